@@ -12,6 +12,7 @@ IDS="$*"
 for id in $IDS; do
   D="$W/verif/seeded/$id"
   [ -f "$D/patch.diff" ] || continue
+  if grep -q '"obsolete"' "$D/meta.json"; then echo "$id: obsolete (see meta.json)"; continue; fi
   CHECKS=$(/venv/bin/python -c "import json,sys;print(' '.join(json.load(open('$D/meta.json'))['caught_by']))")
   if ! git -C "$W/repo" apply "$D/patch.diff" 2>/dev/null; then echo "$id: PATCH DOES NOT APPLY"; git -C "$W/repo" checkout -q -- . ; continue; fi
   for c in $CHECKS; do
